@@ -1,213 +1,1 @@
 import BioCantor.Base
-import BioCantor.Driver.Aggregates
-import BioCantor.Driver.Algebra
-import BioCantor.Driver.Bed
-import BioCantor.Driver.Bins
-import BioCantor.Driver.CDS
-import BioCantor.Driver.Cache
-import BioCantor.Driver.Genbank
-import BioCantor.Driver.Gff
-import BioCantor.Driver.Lift
-import BioCantor.Driver.Loc
-import BioCantor.Driver.Main
-import BioCantor.Driver.Proto
-import BioCantor.Driver.Qualifiers
-import BioCantor.Driver.Query
-import BioCantor.Driver.Sequence
-import BioCantor.Driver.SpecAggregates
-import BioCantor.Driver.SpecAlgebra
-import BioCantor.Driver.SpecBed
-import BioCantor.Driver.SpecBins
-import BioCantor.Driver.SpecCDS
-import BioCantor.Driver.SpecCache
-import BioCantor.Driver.SpecGenbank
-import BioCantor.Driver.SpecGff
-import BioCantor.Driver.SpecLift
-import BioCantor.Driver.SpecLoc
-import BioCantor.Driver.SpecQualifiers
-import BioCantor.Driver.SpecQuery
-import BioCantor.Driver.SpecSequence
-import BioCantor.Driver.SpecTables
-import BioCantor.Driver.SpecTbl
-import BioCantor.Driver.SpecTranscript
-import BioCantor.Driver.SpecValidate
-import BioCantor.Driver.SpecVariants
-import BioCantor.Driver.Tables
-import BioCantor.Driver.Tbl
-import BioCantor.Driver.Transcript
-import BioCantor.Driver.Validate
-import BioCantor.Driver.Variants
-import BioCantor.Gen.Kernels
-import BioCantor.Gen.Tables
-import BioCantor.GenPrelude
-import BioCantor.Model.Aggregates
-import BioCantor.Model.Algebra
-import BioCantor.Model.Bed
-import BioCantor.Model.CDS
-import BioCantor.Model.Cache
-import BioCantor.Model.Digest
-import BioCantor.Model.DigestDict
-import BioCantor.Model.GenbankParse
-import BioCantor.Model.GenbankWrite
-import BioCantor.Model.Gff
-import BioCantor.Model.Lift
-import BioCantor.Model.Location
-import BioCantor.Model.ParentKey
-import BioCantor.Model.Qualifiers
-import BioCantor.Model.Query
-import BioCantor.Model.RelativeTo
-import BioCantor.Model.Sequence
-import BioCantor.Model.Tables
-import BioCantor.Model.Tbl
-import BioCantor.Model.Transcript
-import BioCantor.Model.Validate
-import BioCantor.Model.Variants
-import BioCantor.Proofs.AggBasics
-import BioCantor.Proofs.AggColl
-import BioCantor.Proofs.AggGene
-import BioCantor.Proofs.AggMerged
-import BioCantor.Proofs.AggPrimary
-import BioCantor.Proofs.AlgBasics
-import BioCantor.Proofs.AlgContains
-import BioCantor.Proofs.AlgDistance
-import BioCantor.Proofs.AlgExtend
-import BioCantor.Proofs.AlgGaps
-import BioCantor.Proofs.AlgIntersect
-import BioCantor.Proofs.AlgMinus
-import BioCantor.Proofs.AlgMisc
-import BioCantor.Proofs.AlgOptimize
-import BioCantor.Proofs.AlgOverlap
-import BioCantor.Proofs.AlgUnion
-import BioCantor.Proofs.BedCodec
-import BioCantor.Proofs.BedModel
-import BioCantor.Proofs.CDSBlocks
-import BioCantor.Proofs.CDSClean
-import BioCantor.Proofs.CDSCleaned
-import BioCantor.Proofs.CDSCodons
-import BioCantor.Proofs.CDSConstructFrames
-import BioCantor.Proofs.CDSDeepTrim
-import BioCantor.Proofs.CDSExonRel
-import BioCantor.Proofs.CDSFastPath
-import BioCantor.Proofs.CDSFrames
-import BioCantor.Proofs.CDSKept
-import BioCantor.Proofs.CDSPredicates
-import BioCantor.Proofs.CDSScan
-import BioCantor.Proofs.CDSSeq
-import BioCantor.Proofs.CDSTranslate
-import BioCantor.Proofs.CDSTriples
-import BioCantor.Proofs.CDSWindow
-import BioCantor.Proofs.CDSWindowCodons
-import BioCantor.Proofs.CDSWindowFilter
-import BioCantor.Proofs.CacheLru
-import BioCantor.Proofs.CacheState
-import BioCantor.Proofs.Common
-import BioCantor.Proofs.DigDict
-import BioCantor.Proofs.DigInject
-import BioCantor.Proofs.DigOrder
-import BioCantor.Proofs.GffAttrs
-import BioCantor.Proofs.GffDecode
-import BioCantor.Proofs.GffEscape
-import BioCantor.Proofs.GffIds
-import BioCantor.Proofs.GffLine
-import BioCantor.Proofs.GffRows
-import BioCantor.Proofs.LiftChunk
-import BioCantor.Proofs.LiftDefs
-import BioCantor.Proofs.LiftMain
-import BioCantor.Proofs.LiftOnce
-import BioCantor.Proofs.LiftOrder
-import BioCantor.Proofs.LiftSteps
-import BioCantor.Proofs.PointMaps
-import BioCantor.Proofs.QualBasics
-import BioCantor.Proofs.QualExtract
-import BioCantor.Proofs.QualFilter
-import BioCantor.Proofs.QualGroup
-import BioCantor.Proofs.QualMerge
-import BioCantor.Proofs.QualPerm
-import BioCantor.Proofs.QualSets
-import BioCantor.Proofs.QualSpec
-import BioCantor.Proofs.QueryBounds
-import BioCantor.Proofs.QueryFindings
-import BioCantor.Proofs.QueryIds
-import BioCantor.Proofs.QueryIntervals
-import BioCantor.Proofs.QueryIntervals2
-import BioCantor.Proofs.QueryKept
-import BioCantor.Proofs.QueryMain
-import BioCantor.Proofs.QueryPos
-import BioCantor.Proofs.QueryResult
-import BioCantor.Proofs.QueryTies
-import BioCantor.Proofs.RelBasics
-import BioCantor.Proofs.RelCombine
-import BioCantor.Proofs.RelInterval
-import BioCantor.Proofs.RelToBasics
-import BioCantor.Proofs.RelWalk
-import BioCantor.Proofs.RelativeTo
-import BioCantor.Proofs.SeqAppend
-import BioCantor.Proofs.SeqBasics
-import BioCantor.Proofs.SeqExtract
-import BioCantor.Proofs.SeqObjects
-import BioCantor.Proofs.SeqReverse
-import BioCantor.Proofs.SeqSplit
-import BioCantor.Proofs.TabAlgebra
-import BioCantor.Proofs.TabCodon
-import BioCantor.Proofs.TabLemmas
-import BioCantor.Proofs.TblCodec
-import BioCantor.Proofs.TblFile
-import BioCantor.Proofs.TxBasics
-import BioCantor.Proofs.TxInterval
-import BioCantor.Proofs.TxIntrons
-import BioCantor.Proofs.TxMain
-import BioCantor.Proofs.TxMk
-import BioCantor.Proofs.TxPoint
-import BioCantor.Proofs.TxSpan
-import BioCantor.Proofs.TxUtr
-import BioCantor.Proofs.ValBasics
-import BioCantor.Proofs.ValBridge
-import BioCantor.Proofs.ValCDS
-import BioCantor.Proofs.ValCompound
-import BioCantor.Proofs.ValLists
-import BioCantor.Proofs.ValParent
-import BioCantor.Proofs.ValScan
-import BioCantor.Proofs.ValTx
-import BioCantor.Proofs.ValVar
-import BioCantor.Proofs.ValWindows
-import BioCantor.Proofs.VarAlt
-import BioCantor.Proofs.VarKernel
-import BioCantor.Proofs.VarLift
-import BioCantor.Props.C01
-import BioCantor.Props.C02
-import BioCantor.Props.C03
-import BioCantor.Props.C04
-import BioCantor.Props.C05
-import BioCantor.Props.C06
-import BioCantor.Props.C09
-import BioCantor.Props.C10
-import BioCantor.Props.C11
-import BioCantor.Props.C12
-import BioCantor.Props.C13
-import BioCantor.Props.C14
-import BioCantor.Props.C15
-import BioCantor.Props.C16
-import BioCantor.Props.C17
-import BioCantor.Props.C18
-import BioCantor.Props.C19
-import BioCantor.Props.C20
-import BioCantor.Spec.Aggregates
-import BioCantor.Spec.Algebra
-import BioCantor.Spec.Bed
-import BioCantor.Spec.Bins
-import BioCantor.Spec.Cache
-import BioCantor.Spec.Digest
-import BioCantor.Spec.Genbank
-import BioCantor.Spec.Gff
-import BioCantor.Spec.Lift
-import BioCantor.Spec.Location
-import BioCantor.Spec.LocationCheck
-import BioCantor.Spec.Qualifiers
-import BioCantor.Spec.Query
-import BioCantor.Spec.ReadingFrame
-import BioCantor.Spec.Sequence
-import BioCantor.Spec.Tables
-import BioCantor.Spec.Tbl
-import BioCantor.Spec.Transcript
-import BioCantor.Spec.Validate
-import BioCantor.Spec.Variants
